@@ -107,6 +107,22 @@ D = {
  'C08-set-ors-enqueue-rescans-late': ('C08', 'set() ORs the value in; enqueue re-scans for a free position only if the head entry changed', 'a send nested between another send\'s load and CAS on a non-empty full queue: two indices merged (3|4 = 7), index out of bounds'),
  'C18-reader-moves-guard-stays': ('C18', 'read() moves to the filling slot after a generation change but the guard keeps pointing at the old slot', 'a generation switch inside a three-instruction window of a delivery: one slot at -1, the other at +1 forever; the next store() spins'),
  'C18-lock-order-inversion': ('C18', 'register takes race_fallback before data and resets it afterwards; unregister clears a present fallback under data', 'a failed first registration (register_signal_unchecked(SIGKILL)) arms the fallback; then unregister overlapping register: AB/BA deadlock'),
+ 'C09-empty-batch-pending-r4': ('C09', 'poll_signal answers Pending right after an empty fresh batch (independent rediscovery, round 4)', 'a stale wake-up byte (its signal was handed out by the previous batch) and then any delivery'),
+ 'C09-scan-stops-before-sigrtmax': ('C09', 'Pending::next scans up to min(SIGRTMAX, MAX_SIGNUM) exclusive', 'watching SIGRTMAX (64): flag set, byte written, never reported'),
+ 'C12-id-list-resized-before-check': ('C12', 'the id list starts empty and add_signal resizes it to signal+1 before the range assertions', 'add_signal(i32::MAX): allocation failure aborts the process; add_signal(-1) in release builds truncates the list'),
+ 'C12-no-cleanup-while-panicking-r4': ('C12', 'DeliveryState::drop returns early when thread::panicking() (independent rediscovery, round 4)', 'a constructor refused by panic after a successful registration; an instance dropped by an unwinding thread'),
+ 'C05-flags-inherited-r4': ('C05', 'Slot::new ORs the flags of the disposition it replaces into the library handler\'s (round 4)', 'a previous handler installed with SA_RESETHAND: the library handler becomes one-shot'),
+ 'C05-vec-swap-remove': ('C05', 'Slot::actions becomes a Vec and unregister uses swap_remove', 'three live actions on one signal, the first removed: the newest jumps into its place'),
+ 'C15-flags-inherited-oneshot': ('C15', 'the library handler inherits the previous handler\'s sa_flags', 'SIGTERM had a SA_RESETHAND handler before: the second SIGTERM kills by the default action instead of _exit(status)'),
+ 'C15-vec-swap-remove-r4': ('C15', 'actions in a Vec, unregister with swap_remove (round 4)', 'an action registered before the shutdown/flag pair is unregistered: their order flips'),
+ 'C14-early-assert-leak-r4': ('C14', 'register_raw asserts !FORBIDDEN first (round 4)', 'pipe::register(forbidden, fd): the descriptor is never closed'),
+ 'C14-check-skipped-when-slot-exists-r4': ('C14', 'register_sigaction_impl skips the FORBIDDEN assertion when the signal has a slot (round 4)', 'unchecked registration of ILL/FPE/SEGV, then any checked entry point for it'),
+ 'C13-set-flags-before-owner': ('C13', 'set_flags becomes a free function called before the owning WakeFd is built', 'an open non-socket descriptor that refuses F_SETFL (O_PATH): Err is returned and nobody closes it'),
+ 'C13-drop-restores-flags-r4': ('C13', 'WakeFd restores the recorded file status flags on drop (round 4)', 'two registrations on dups of one pipe, the first removed, a full pipe'),
+ 'C11-stale-byte-unarmed-pending': ('C11', 'poll_signal returns Pending when the fresh batch is empty (round 4)', 'a wake-up byte whose signal the previous batch handed out; close() later never reaches the parked task'),
+ 'C11-close-poisoned-lock-r4': ('C11', 'close() takes the ids mutex with unwrap(); add_signal returns early when closed (round 4)', 'a contained panicking add_signal, then close()'),
+ 'C10-constructor-one-lock-duplicates': ('C10', 'with_pipe registers the initial list under one lock through the internal add_signal (no duplicate check)', 'a signal listed twice in the constructor list, info-carrying exfiltrator'),
+ 'C10-reclaim-guard-underscore': ('C10', 'recv hands the slot back through a drop guard bound with `let _ =`', 'a full buffer and a delivery between the release and the take'),
  'C18-unregister-read-then-write': ('C18', 'unregister looks the id up under a read guard that is still held while write() blocks', 'two mutators: one holds the mutex before its barrier\'s first check, the other\'s unregister has incremented a reader slot and blocks on the mutex'),
 }
 for name, (prop, change, needs) in D.items():
